@@ -302,3 +302,57 @@ Theorem C01_source_dispatch : forall purity m variants l b cc lr br pure thr tok
         end in
     ((if String.eqb m "threshold" then thr else a), l', b').
 Proof. exact Proofs.FnCallDispatch.source_dispatch. Qed.
+
+(* ---- [loop ties e1] source tie of absolute_pure's loop (Gen/FnCallPureRow.v fn_pure_row: ONE ITERATION of
+   `for i, row in enumerate(cnarr):`, the value stored at absolutes[i], regenerated from the Python source on every run):
+   it IS the `absolutes` of call_row on the no-purity path, cn its half-to-even rounding, the log2 column untouched *)
+From CNV Require Gen.FnCallPureRow Proofs.FnCallPureRow.
+Theorem C01_source_pure_row : forall (exp2 : Q -> Q) i k purity hapx female build first chrom lo hi v,
+  use_purity purity = None ->
+  let a := Gen.FnCallPureRow.fn_pure_row exp2 i chrom v k hapx in
+  let c := call_row k purity hapx female build first (chrom, lo, hi, exp2 v) in
+  abs_of c == a /\ cn_of c = round_he a /\ ratio_of c = None.
+Proof. exact Proofs.FnCallPureRow.source_pure_call_row. Qed.
+
+(* ---- [loop ties e1] source tie of the purity-adjusted row (Gen/FnCallClonalRow.v): the function absolute_dataframe
+   hands to `df.apply(..., axis=1)` (fn_dataframe_row), the column absolute_clonal returns (fn_clonal_column) and do_call's
+   `.clip(lower=0)` (fn_clonal_clip), composed on the (reference, expect) copies of the row's class, ARE the `absolutes`
+   of call_row on the purity-adjusted path; cn is its half-to-even rounding, the rewritten ratio `rescaled` of it *)
+From CNV Require Gen.FnCallClonalRow Proofs.FnCallClonalRow.
+Theorem C01_source_clonal_row : forall (exp2 : Q -> Q) k purity p hapx female build first chrom lo hi v,
+  use_purity purity = Some p ->
+  let cl := row_class build first chrom lo hi in
+  let '(r, x) := ref_expect k hapx female cl in
+  let a := Gen.FnCallClonalRow.fn_clonal_clip
+             (Gen.FnCallClonalRow.fn_clonal_column (Gen.FnCallClonalRow.fn_dataframe_row exp2 purity v r x)) in
+  let o := call_row k purity hapx female build first (chrom, lo, hi, exp2 v) in
+  abs_of o == a /\ cn_of o = round_he a /\ ratio_of o = Some (rescaled a k (shifted hapx cl)).
+Proof. exact Proofs.FnCallClonalRow.source_clonal_call_row. Qed.
+
+(* the row function of df.apply alone, on both sides of `if purity and purity < 1.0` *)
+Theorem C01_source_dataframe_row : forall (exp2 : Q -> Q) purity v r x,
+  (forall p, use_purity purity = Some p ->
+     Gen.FnCallClonalRow.fn_dataframe_row exp2 purity v r x == abs_clonal (exp2 v) r x p) /\
+  (use_purity purity = None -> Gen.FnCallClonalRow.fn_dataframe_row exp2 purity v r x == abs_pure (exp2 v) r).
+Proof.
+  intros exp2 purity v r x. split.
+  - intros p U. exact (Proofs.FnCallClonalRow.dataframe_row_eq exp2 purity p v r x U).
+  - exact (Proofs.FnCallClonalRow.dataframe_row_pure exp2 purity v r x).
+Qed.
+
+(* ---- [loop ties e1] source tie of do_call's `if method != "none": outarr["cn"] = absolutes.round().astype("int") ...`
+   (Gen/FnCallFinish.v fn_finish, the WHOLE statement): for method "clonal" do_call_row is the generated statement applied
+   to the `absolutes` of the row *)
+From CNV Require Gen.FnCallFinish Proofs.FnCallFinish.
+Theorem C01_source_finish_clonal : forall k purity hapx female build ts variants with_baf first row,
+  let '(v1, _, abs1, ratio) := dc_purity_step MClonal k purity hapx female build first row in
+  let has_baf := with_baf || variants in
+  let b := dc_baf purity variants (d_baf row) in
+  do_call_row MClonal k purity hapx female build ts variants with_baf first row
+  = match abs1 with
+    | Some a => let '(cn, c1, c2) := Gen.FnCallFinish.fn_finish "clonal" a has_baf b in
+                Some (mk_dc_out ratio v1 (Some a) (Some cn) (if has_baf then b else None)
+                                (if has_baf then Some (c1, c2) else None))
+    | None => None
+    end.
+Proof. exact Proofs.FnCallFinish.source_finish_row_clonal. Qed.
